@@ -250,3 +250,76 @@ class UfuncAnchors:
         if len(ur) != 1:
             raise AnalysisError(f"{self.fn.where()}: `mul, unit = unit_operator(u0, u1)` not found")
         self.unit_stmt = ur[0]
+
+
+def out_target_scaled(a: "UfuncAnchors"):
+    """Typestate along every path through the wrap-up block of __array_ufunc__.  State: what the path knows about
+    `mul` (one / not-one / unknown, from the tests on mul and the re-binding `mul = 1`) and whether the out target
+    has been multiplied by it.  A feasible path on which out is given, mul is known to differ from 1 and the
+    target was never scaled leaves the caller's buffer holding the unscaled numbers.
+    Returns (ok, where, path conditions of the offending path)."""
+    from engine.core import kwarg_of
+    from engine.flow import decompose, enum_paths
+
+    fn = a.fn
+    n_out = 0
+    for p in enum_paths(a.post, limit=20000):
+        if p[-1][0] != "return":
+            continue
+        know, scaled, ever_not_one, has_out, feasible = None, False, False, False, True
+        for ev in p:
+            if ev[0] == "cond":
+                facts = []
+                decompose(ev[1], ev[2], facts)
+                for t, tr, _ in facts:
+                    if (t == "out is not None" and tr) or (t == "out is None" and not tr):
+                        has_out = True
+                    if t in ("mul != 1", "mul != 1.0", "mul == 1", "mul == 1.0"):
+                        is_one = (tr and "==" in t) or (not tr and "!=" in t)
+                        if know is not None and know != is_one:
+                            feasible = False
+                        know = is_one
+                        if not is_one and not scaled:
+                            ever_not_one = True
+            elif ev[0] == "stmt":
+                if isinstance(ev[1], ast.Assign) and norm(ev[1].targets[0]) == "mul":
+                    know = True if norm(ev[1].value) in ("1", "1.0") else None
+                for c in ast.walk(ev[1]):
+                    if isinstance(c, ast.Call) and norm(c.func) in ("multiply", "np.multiply") and len(c.args) >= 2 and norm(c.args[0]) == "out" and norm(c.args[1]) == "mul" and kwarg_of(c, "out") is not None and norm(kwarg_of(c, "out")) == "out":
+                        scaled = True
+                        ever_not_one = False
+        if not feasible or not has_out:
+            continue
+        n_out += 1
+        if ever_not_one and not scaled:
+            conds = [f"{norm(ev[1])}={ev[2]}" for ev in p if ev[0] == "cond"][-5:]
+            return False, fn.where(p[-1][1]), conds
+    if n_out == 0:
+        raise AnalysisError(f"{fn.where()}: no path with an out= target found in the wrap-up block")
+    return True, fn.where(), []
+
+
+def dot_method_units(repo: Repo):
+    """units-of-measure type of the ndarray-method override unyt_array.dot: the returned quantity and the unit
+    written to out= are U(self) * U(b) - the full unit, including the numeric coefficient a simplification would
+    split off.  Yields (key, ok, where, message, expected, found)."""
+    from engine.units import Qn, Un, UnitInterp, U
+
+    mod = repo.mod(ARR)
+    fn = mod.func("unyt_array.dot")
+    it = UnitInterp(repo, mod, {})
+    want = U("self") * U(fn.params[1])
+    outs = it.run(fn)
+    if not outs:
+        raise AnalysisError(f"{fn.where()}: no path through dot()")
+    for o in outs:
+        tag = ",".join(f"{t}={tr}" for t, tr in o.facts)
+        v = o.value
+        ok = isinstance(v, Qn) and not v.mono.is_opaque and v.mono.same(want)
+        yield (f"dot:return[{tag}]", ok, fn.where(), "a.dot(b) must carry the product of the operands' units (including the scale of a.units*b.units): otherwise re-expressing an operand changes the physical result", str(want), repr(v))
+        fm = dict(o.facts)
+        eff = [val for kind, tgt, val in o.effects if kind == "setattr" and tgt == f"{fn.params[2]}.units"]
+        may_be_unyt_out = fm.get("out is not None") or fm.get(f"isinstance({fn.params[2]}, unyt_array)")
+        if may_be_unyt_out or eff:
+            ok = len(eff) == 1 and isinstance(eff[0], Un) and not eff[0].mono.is_opaque and eff[0].mono.same(want)
+            yield (f"dot:out-units[{tag}]", ok, fn.where(), "a.dot(b, out=o) must label o with the product of the operands' units", str(want), repr(eff))
